@@ -262,7 +262,7 @@ def check(run):
         cs = []
         specs = [rand_shell(rng, rng.randint(0, 4 if k % 2 else 3), cs, exp_hi=20.0, nprim=rng.randint(1, 3), nseg=rng.randint(1, 2))
                  for _ in range(rng.randint(1, 3))]
-        env = pf.default_env(rng, specs)
+        env = pf.default_env(rng, specs, npts=[3, 4, 1, 5, 2][k % 5])
         for R in (sp if (not quick or k == 0) else rng.sample(sp, 8)):
             motion_case(run, specs, env, R, np.zeros(3), "signed-permutation", names if not quick else rng.sample(names, 4))
         for _ in range(3 if quick else 20):
